@@ -1,4 +1,4 @@
-pub mod engine;
+pub use rnv_engine as engine;
 pub mod c20;
 pub mod logmodel;
 pub mod logl1;
